@@ -221,6 +221,13 @@ def actions_gate(run):
                     'ElectionRecord.action / the rule action hooks, extracted, are no longer the tables the JSON model is driven by')
 
 
+def addlog_gate(run):
+    from props import gen_gate
+    return gen_gate(run, 'translator_addlog', 'gen_addlog', 'table',
+                    'Gen.addLogTable = C18.addLogTable by rfl; withAddLogs_is_table, withAddLogs_frame, withAddLogs_length (lean/Props/C18AddLog.lean)',
+                    'the log lines of Candidates.add (droop/candidates.py), extracted, are no longer the chain lean/Props/C18AddLog.lean proves the model to follow')
+
+
 def dump_gate(run):
     from props import gen_gate
     return gen_gate(run, 'translator_dump', 'gen_dump', 'tables',
@@ -232,7 +239,7 @@ def dump_gate(run):
 @prop('C18')
 def C18(run):
     count_property(run, dict(rules=ALL, keys=['C18'], proj=proj_C18, quick=4000, thorough=100000,
-                             extra_gate=lambda run: code_gate(run) + asdict_gate(run) + actions_gate(run) + dump_gate(run)))
+                             extra_gate=lambda run: code_gate(run) + asdict_gate(run) + actions_gate(run) + dump_gate(run) + addlog_gate(run)))
     rng = rng_for(run, 'render')
     cases = campaign.make_cases(rng, budget(run, 3000, 80000), ALL)
     items = []
